@@ -242,6 +242,12 @@ Definition server_reply (q : request) : sres :=
   | None => handle_request q
   end.
 
+(* one connection: the read loop (io_.run / run_async) takes the frames one after the other and
+   resets its per-message state (content_length) in `finally`, whatever happened to the message;
+   the error mapping keeps no state either, so a session is the fold of the per-message step *)
+Definition session_step (acc : list sres) (q : request) : list sres := acc ++ [server_reply q].
+Definition session_replies (qs : list request) : list sres := fold_left session_step qs [].
+
 End Server.
 End WithData.
 
@@ -260,4 +266,4 @@ Arguments SReply {D}. Arguments SNoReply {D}. Arguments SBroken {D}. Arguments s
 Arguments raise_reply {D}. Arguments with_class {D}. Arguments internal_error_of {D}.
 Arguments method_not_found_of {D}. Arguments structure_request {D}. Arguments reply_of_outcome {D}.
 Arguments execute_request_callback {D}. Arguments execute_request {D}. Arguments handle_request {D}.
-Arguments server_reply {D}.
+Arguments server_reply {D}. Arguments session_step {D}. Arguments session_replies {D}.
